@@ -13,11 +13,12 @@ SS_CFG = """CONSTANTS MaxVars = %(MaxVars)d
           AllowTake = %(AllowTake)s
           AllowPart = %(AllowPart)s
           MaxStack = %(MaxStack)d
+          AllowFlat = %(AllowFlat)s
 SPECIFICATION Spec
 INVARIANT Emit
 CHECK_DEADLOCK FALSE
 """
-DEFAULTS = dict(MaxVars=3, MaxTerms=2, MaxFacs=3, AllowAffine="TRUE", AllowTake="TRUE", AllowPart="TRUE", MaxStack=2)
+DEFAULTS = dict(MaxVars=3, MaxTerms=2, MaxFacs=3, AllowAffine="TRUE", AllowTake="TRUE", AllowPart="TRUE", MaxStack=2, AllowFlat="FALSE")
 
 
 def generate(wd, report, num=None, seed=0, tag="ss", **params):
@@ -78,7 +79,9 @@ def partitioning(sp, tens):
     part = {}
     vars_ = ["m", "n", "k", "j"]
     for x, st in enumerate(sp["stacks"]):
-        if st:
+        if st and st[0]["k"] == "flatten":
+            part["(%s, %s)" % (vars_[x].upper(), vars_[st[0]["sz"] - 1].upper())] = ["flatten()"]
+        elif st:
             part[vars_[x].upper()] = [("%s(%s.%d)" % (d["k"], tens[d["leader"] - 1], d["sz"])) if d["k"] == "uniform_occupancy" else "%s(%d)" % (d["k"], d["sz"]) for d in st]
     return part
 
